@@ -60,6 +60,15 @@ Definition init_state (n : N) (pase : bool) : c_state :=
     Idle (if pase then Some 0 else None)
     (map (fun p => (fabric_key (fst p), BFab (fst p) (snd p))) (init_fabs n)).
 
+(** a node that has seen many commissionings and removals: fabrics at arbitrary local indexes
+    (the harness derives their blobs from the one of fabric 1) *)
+Definition init_state_at (idxs : list N) (pase : bool) : c_state :=
+  let fabs := map (fun i => (i, init_fabric 1)) idxs in
+  mkState cblob
+    (mkRam fabs basic_default nets_reset 0 [] [] 0 None [] [] [] [])
+    Idle (if pase then Some 0 else None)
+    (map (fun p => (fabric_key (fst p), BFab (fst p) (snd p))) fabs).
+
 (** ** The property in executable form, over what was OBSERVED on the implementation.
 
     A cell is a persisted structure as seen from outside: its identifier is its
